@@ -153,21 +153,22 @@ theorem valuePair_numeric (m : Mode) (op : Op) (a b : Atom) (i j : Nat)
       · obtain ⟨hl, hg⟩ := numEq_not_lt hq
         simp [hl, hg]
 
-/-- year starts three years apart are more than 729 days apart (closed form of C11's calendar) -/
-theorem dBY_gap (a b : Int) (h : a + 3 ≤ b) :
-    EPV.Timeline.daysBeforeYearC (a + 1) + 730 ≤ EPV.Timeline.daysBeforeYearC b := by
+/-- year starts two (astronomical) years apart are at least 365 days apart (closed form of C11's calendar) -/
+theorem dBY_gap (a b : Int) (h : a + 2 ≤ b) :
+    EPV.Timeline.daysBeforeYearC (a + 1) + 365 ≤ EPV.Timeline.daysBeforeYearC b := by
   unfold EPV.Timeline.daysBeforeYearC; omega
 
-/-- CALENDAR CONSISTENCY, proved: with timezones within ±14:00, date/time values whose local years
-(`DT.year` = C11's `yearOfDay` of the local day) differ by more than two are ordered by instant as by
-year — the fact that makes the "compare the year numbers" shortcut of `_compare` sound -/
+/-- CALENDAR CONSISTENCY, proved: with timezones within ±14:00, date/time values whose internal years
+(`DT.year`: C11's `yearOfDay` of the local day, without a year 0) differ by more than two are ordered by
+instant as by year — the fact that makes the "compare the year numbers" shortcut of `_compare` sound,
+across the BCE/CE boundary as well -/
 theorem dtFarOK_of_tzOK (x y : DT) (hx : x.tzOK = true) (hy : y.tzOK = true) : dtFarOK x y = true := by
   have key : ∀ u v : DT, u.tzOK = true → v.tzOK = true → u.year + 2 < v.year → u.inst < v.inst := by
     intro u v hu hv h
     have h1 := EPV.Timeline.yearOfDay_spec (u.t / 86400)
     have h2 := EPV.Timeline.yearOfDay_spec (v.t / 86400)
-    have h3 := dBY_gap u.year v.year (by omega)
-    unfold DT.year at h h3
+    have h3 := dBY_gap (EPV.Timeline.yearOfDay (u.t / 86400)) (EPV.Timeline.yearOfDay (v.t / 86400))
+      (by unfold DT.year at h; simp only [] at h; split at h <;> split at h <;> omega)
     have hu' : -840 ≤ u.tz.getD 0 ∧ u.tz.getD 0 ≤ 840 := by
       unfold DT.tzOK at hu; cases hz : u.tz <;> simp_all
     have hv' : -840 ≤ v.tz.getD 0 ∧ v.tz.getD 0 ≤ 840 := by
